@@ -13,6 +13,7 @@ import (
 	"testing"
 	"time"
 
+	"github.com/conduitio/conduit-commons/opencdc"
 	"github.com/conduitio/conduit/pkg/verifkit"
 	"github.com/conduitio/conduit/pkg/verifkit/fakes"
 	"github.com/conduitio/conduit/pkg/verifkit/stack"
@@ -41,6 +42,7 @@ type flowParams struct {
 	NoMatch      []int   `json:"no_match"`       // records that do not match the processors' condition (Cond: "match")
 	GateDLQOpen  bool    `json:"gate_dlq_open"`  // the DLQ connector's Open is a pending event (an unresponsive DLQ during start-up)
 	Reject       map[string][]string `json:"reject"` // destination -> records/pieces it rejects (forced answers, C08)
+	SrcPositions string  `json:"src_positions"` // "" normal, "dup": record 1 repeats the position of record 0, "empty": record 1 has an empty position
 }
 
 // procParam describes one scripted processor of the scenario.
@@ -78,6 +80,9 @@ func (p flowParams) name() string {
 	if p.Reject != nil {
 		n += fmt.Sprintf("/reject=%v", p.Reject)
 	}
+	if p.SrcPositions != "" {
+		n += "/srcpos=" + p.SrcPositions
+	}
 	if p.Bundle > 0 {
 		n += fmt.Sprintf("/bundle%d", p.Bundle)
 	}
@@ -107,7 +112,24 @@ func (p flowParams) topology() stack.Topology {
 			}
 			batches = append(batches, b)
 		}
-		t.Sources = append(t.Sources, fakes.SourceScript{Name: fmt.Sprintf("s%d", s), Batches: batches, ReadMenu: p.ReadMenu, NoMatch: p.NoMatch})
+		ss := fakes.SourceScript{Name: fmt.Sprintf("s%d", s), Batches: batches, ReadMenu: p.ReadMenu, NoMatch: p.NoMatch}
+		switch p.SrcPositions {
+		case "dup":
+			ss.PositionOf = func(i int) opencdc.Position {
+				if i == 1 {
+					return fakes.Pos(0)
+				}
+				return fakes.Pos(i)
+			}
+		case "empty":
+			ss.PositionOf = func(i int) opencdc.Position {
+				if i == 1 {
+					return nil
+				}
+				return fakes.Pos(i)
+			}
+		}
+		t.Sources = append(t.Sources, ss)
 	}
 	for d := 0; d < p.Dests; d++ {
 		ds := fakes.DestScript{Name: fmt.Sprintf("d%d", d), AckMenu: p.AckMenu, GateOpen: p.GateDestOpen, Faults: p.GateDestOpen}
@@ -362,6 +384,14 @@ func TestVerifFlow(t *testing.T) {
 func filterFor(prop string, vs []verifkit.Violation) []verifkit.Violation {
 	var out []verifkit.Violation
 	for _, v := range vs {
+		if prop == "C09" {
+			// C09 on the full stack: whatever shape a plugin replies with, the engine neither acknowledges an affected
+			// record nor fails to terminate. (Panics are caught by the driver: the crashing schedule is journaled.)
+			switch {
+			case strings.HasPrefix(v.Key, "C01/ack-before-destination"), strings.HasPrefix(v.Key, "C02/position-covers-unhandled"):
+				v.Key = "C09/affected-record-acknowledged"
+			}
+		}
 		if prop == "SMOKE" || prop == "PROC" || strings.HasPrefix(v.Key, prop+"/") || strings.HasPrefix(v.Key, "harness/") || (strings.HasPrefix(v.Key, "hang/") && (prop == "C09" || prop == "C11" || prop == "C12" || prop == "C06")) {
 			out = append(out, v)
 		}
